@@ -76,6 +76,7 @@ func c17Accessors(c *Ctx) {
 	r.Decides = append(r.Decides,
 		"K1 table agreement: for each option code the typed accessor, the Opt* constructor and the printer table (getOption) use the same value type (listed exceptions: 54 printed as a list, 77 string/strings)",
 		"K2 fallback discipline: on the decode-error edge and on the absent edge every accessor returns a value that does not derive from the decode target (nil, zero, the caller's default or the documented raw fallback)",
+		"K5 string accessors return the decoded string itself or strings.TrimRight(s, NUL) of it (also through an in-module helper with exactly that body)",
 		"K3 exactness: every DHCPv4 value type's FromBytes accepts only inputs it consumes exactly (tiling rule shared with C05-K1; RelayOptions follows the C04 option-list rule)")
 	sp := c.P.SSAPkg[v4pkg]
 	if sp == nil {
@@ -251,6 +252,7 @@ func c17Accessors(c *Ctx) {
 			}
 		}
 		c17Fallback(c, a)
+		c17StringTransform(c, a)
 	}
 	// K3 exactness of the value types
 	var decs []*ssa.Function
@@ -367,4 +369,83 @@ func fallbackValueOK(v ssa.Value, target ssa.Value) bool {
 		return false
 	}
 	return !dep(v, 0)
+}
+
+
+// c17StringTransform: K5 — a string-valued accessor returns the decoded string itself, or the decoded string
+// with trailing NULs removed (strings.TrimRight(s, "\x00"): the documented tolerance for NUL-terminated
+// names), possibly through an in-module helper whose body is exactly one of these. Any other post-processing
+// (cutting at the first NUL, trimming spaces, case folding, …) changes the interpretation of well-formed values.
+func c17StringTransform(c *Ctx, a *accInfo) {
+	r, sx := c.R, c.Sx()
+	f := a.fn
+	if f.Signature.Results().Len() != 1 {
+		return
+	}
+	bt, ok := f.Signature.Results().At(0).Type().Underlying().(*types.Basic)
+	if !ok || bt.Info()&types.IsString == 0 {
+		return
+	}
+	name := shortName(f)
+	var classify func(s string, depth int) string
+	classify = func(s string, depth int) string {
+		switch {
+		case strings.HasPrefix(s, "call[dhcpv4.GetString]("), strings.HasPrefix(s, "conv[string]("):
+			return "plain"
+		case strings.HasPrefix(s, "const("):
+			return "plain"
+		case strings.HasPrefix(s, "call[strings.TrimRight](") && strings.HasSuffix(s, `,const("\x00"))`):
+			inner := s[len("call[strings.TrimRight](") : len(s)-len(`,const("\x00"))`)]
+			if classify(inner, depth) == "plain" {
+				return "trimNULs"
+			}
+		}
+		return ""
+	}
+	var judge func(v ssa.Value, depth int) string
+	judge = func(v ssa.Value, depth int) string {
+		if k := classify(sx.Of(v).String(), depth); k != "" {
+			return k
+		}
+		if ph, ok := v.(*ssa.Phi); ok {
+			res := "plain"
+			for _, e := range ph.Edges {
+				k := judge(e, depth)
+				if k == "" {
+					return ""
+				}
+				if k != "plain" {
+					res = k
+				}
+			}
+			return res
+		}
+		// in-module helper applied to a plain value: its single return, with the parameter substituted
+		if cl, ok := v.(*ssa.Call); ok && depth < 2 {
+			if sf := cl.Call.StaticCallee(); sf != nil && inModule(sf) && sf.Blocks != nil && len(cl.Call.Args) >= 1 {
+				rets := returnsOf(sf)
+				if len(rets) == 1 && len(rets[0].Results) == 1 {
+					body := sx.Of(rets[0].Results[0]).String()
+					for i, arg := range cl.Call.Args {
+						if i < len(sf.Params) {
+							body = strings.ReplaceAll(body, sx.Of(sf.Params[i]).String(), sx.Of(arg).String())
+						}
+					}
+					return classify(body, depth+1)
+				}
+			}
+		}
+		return ""
+	}
+	for _, ret := range returnsOf(f) {
+		k := judge(ret.Results[0], 0)
+		if k == "" {
+			r.Violation("C17-K5", name+fmt.Sprintf(" (code %d): the string returned is the decoded value, at most with trailing NULs removed", a.code), c.P.ipos(ret),
+				"the accessor returns "+sx.Of(ret.Results[0]).String()+": a transform other than strings.TrimRight(s, \"\\x00\") is applied to the decoded string, so a well-formed value is not returned as the RFC 2132 interpretation of its bytes")
+			return
+		}
+	}
+	r.OK("C17-K5", name+fmt.Sprintf(" (code %d): the string returned is the decoded value, at most with trailing NULs removed", a.code), c.P.pos(f.Pos()), "symx of every return", "")
+	r.Count("C17-K5-string-accessors", 1)
+	r.Expect("C17-K5-string-accessors", 6)
 }
